@@ -172,6 +172,7 @@ def ideal(prog) -> dict:
                 st[ref] = stage_from_tasks(prog, sd)
             elif not ok:
                 st[ref] = "NOT_STARTED"
+
             elif sd["enabled"] is False:
                 st[ref] = "SKIPPED"
             else:
@@ -246,6 +247,8 @@ def racy(prog) -> set[str]:
                 continue
             out.add(r)
             out |= descendants(prog, r) - {h} - before
+    # a stage gated by a milestone runs or is skipped depending on when its StartStage is handled
+    out |= {s["ref"] for s in prog["stages"] if s.get("milestone")}
     # synthetic children of a racy stage are racy too
     out |= {s["ref"] for s in prog["stages"] if s["parent"] in out}
     return out
